@@ -263,6 +263,45 @@ def check_c10(idx: Index, tier: str, res: Result) -> None:
         ok = t.startswith("sorted([") and "reverse=True" in t and "-1" in t
         res.check("AGG", "rank = sorted descending [rank-1]", ok, r.fi.loc(), r.fi.qual, t[:120], "the rank template is %s" % t[:100],
                   key="AGG/ArrayRankOperator/shape")
+    # the rank's clamp must know the number of *all* elements (rows x columns), the list must be the flat element list
+    rkf = idx.func(OPS, "ArrayRankOperator.term")
+    fmts = [c for c in iter_calls(rkf.node) if call_name(c) == "format" and isinstance(c.func.value, ast.Constant) and "sorted(" in str(c.func.value.value)]
+    if len(fmts) != 1:
+        raise AnalysisError("ArrayRankOperator.term: rank template not found")
+    kw = {k.arg: k.value for k in fmts[0].keywords}
+    tmpl = fmts[0].func.value.value
+    try:
+        shape_ok = nf(tmpl.format(arr="ARR", rank="RANK", count="COUNT")) == nf("sorted(ARR, reverse=True)[(COUNT - 1 if (RANK < 0 or RANK > COUNT) else RANK - 1)]")
+    except (KeyError, IndexError, SyntaxError):
+        shape_ok = False
+    res.check("AGG", "rank template = descending sort, rank-th entry, clamped to the smallest", shape_ok, rkf.loc(fmts[0]), rkf.qual, tmpl[:110],
+              "the rank template is '%s'" % tmpl[:100], key="AGG/ArrayRankOperator/template")
+    assigns = {}
+    for n in walk_no_nested(rkf.node):
+        if isinstance(n, ast.Assign) and isinstance(n.targets[0], ast.Name):
+            assigns.setdefault(n.targets[0].id, []).append(n.value)
+
+    def resolve(e):
+        if isinstance(e, ast.Name) and len(assigns.get(e.id, [])) == 1:
+            return assigns[e.id][0]
+        return e
+    cnt = resolve(kw.get("count"))
+    ms = [k for k, v in assigns.items() if any(isinstance(x, ast.Call) and call_name(x) == "matrix_size" for x in v)]
+    ok = cnt is not None and bool(ms) and nf(cnt) == nf("%s[0] * %s[1]" % (ms[0], ms[0]))
+    res.check("AGG", "rank clamps against rows x columns", ok, rkf.loc(fmts[0]), rkf.qual, "count=%s" % (src(cnt) if cnt is not None else "?"),
+              "the rank is clamped against %s, not against the number of all elements (rows x columns): on a matrix every rank larger than "
+              "that silently returns a different entry" % (src(cnt) if cnt is not None else "?"), key="AGG/ArrayRankOperator/count")
+    fix = [g for g in walk_no_nested(rkf.node) if isinstance(g, ast.If) and bool(ms) and src(g.test).replace(" ", "") in ("%s[1]<=0" % ms[0], "%s[1]<1" % ms[0])]
+    res.check("AGG", "a vector counts as one column", bool(fix), rkf.loc(), rkf.qual, "if matrix_size[1] <= 0: matrix_size[1] = 1",
+              "the column count of a plain vector (0) is not replaced by 1: the element count of a vector would be 0", key="AGG/ArrayRankOperator/vector-columns")
+    arr = resolve(kw.get("arr"))
+    ok = isinstance(arr, ast.Call) and call_name(arr) == "_matrix_element_to_string" and len(arr.args) == 3 and src(arr.args[0]) == "self.element" \
+        and isinstance(arr.args[2], ast.Constant) and arr.args[2].value is True
+    res.check("AGG", "rank sorts the flat list of all elements", ok, rkf.loc(), rkf.qual, src(arr)[:80] if arr is not None else "",
+              "the rank does not sort the flattened element list", key="AGG/ArrayRankOperator/flat-list")
+    okr = isinstance(kw.get("rank"), ast.Attribute) and src(kw["rank"]) == "self.rank"
+    res.check("AGG", "rank argument is the operator's rank", okr, rkf.loc(), rkf.qual, src(kw.get("rank")) if kw.get("rank") is not None else "",
+              "the rank placeholder is filled from %s" % (src(kw.get("rank")) if kw.get("rank") is not None else "?"), key="AGG/ArrayRankOperator/rank-arg")
     sz = idx.func(OPS, "ArraySizeOperator.term")
     ok = any(call_name(c) == "vector_size" for c in iter_calls(sz.node))
     res.check("AGG", "size = number of sub-elements", ok, sz.loc(), sz.qual, "vector_size()", "ArraySizeOperator does not report vector_size()",
